@@ -680,73 +680,96 @@ def _unit_visits(unit):
   return out
 
 
+class _Pipeline:
+  """What SerializeAst does to the tree it hands to SerializableAst(...)."""
+
+
+def _export_pipeline(ctx):
+  """The export pipeline of SerializeAst, read once (shared by R12.3 and the
+  sort-key rule R12.7 in rules/c12_sortkey.py): the virtual module with the
+  step functions inlined, the constructor statement, reaching definitions, the
+  per-path verdicts of the canonical-ordering walk, the names that denote the
+  exported object (`aliases`) / the trees it was derived from (`lineage`) and
+  the statements that apply CanonicalOrderingVisitor (`canon_stmts`)."""
+  def make():
+    p = _Pipeline()
+    # module-local step functions (`ast = _CleanForExport(ast)`) are inlined:
+    # the pipeline is a property of what SerializeAst does, not of where the
+    # statements are written
+    p.smod = smod = U.virtual(ctx, SERIALIZE, inline=("SerializeAst",))
+    p.fn = fn = smod.func("SerializeAst")
+    ctors = calls_in(fn, name="SerializableAst")
+    if len(ctors) != 1:
+      raise AnalysisError("SerializeAst: SerializableAst(...) call not found")
+    ctor = ctors[0]
+    a0 = ctor.args[0] if ctor.args else kwarg(ctor, "ast")
+    if not isinstance(a0, ast.Name):
+      raise AnalysisError("SerializeAst: the AST argument is not a local name")
+    p.var = var = a0.id
+    p.cstmt = cstmt = smod.enclosing_stmt(ctor)
+    p.rd = rd = reaching(fn)
+    # -- canonical ordering: walk the definition chain backwards from the ctor
+    p.verdicts = verdicts = []   # per path: (has_canonical, visitors_after)
+    p.unknown = unknown = []
+    p.aliases = aliases = {var}  # names that denote the very object handed to the ctor
+    p.lineage = lineage = {var}  # names of the trees that object was derived from by .Visit
+    p.canon_stmts = canon_stmts = []
+
+    def back(name, stmt, after, depth, seen):
+      if depth > 12:
+        raise AnalysisError("SerializeAst: definition chain too deep")
+      defs = defs_at(rd, stmt, name)
+      if not defs:
+        verdicts.append((False, list(after)))
+        return
+      for d in defs:
+        if d in seen:
+          continue
+        plain = isinstance(d, ast.Assign) and len(d.targets) == 1 and \
+            dotted(d.targets[0]) == name
+        if plain and isinstance(d.value, ast.Name):
+          # `name = other`: the same object under another name
+          if not after:
+            aliases.add(d.value.id)
+          lineage.add(d.value.id)
+          back(d.value.id, d, after, depth + 1, seen | {d})
+          continue
+        v = _visitor_of(d.value) if plain else None
+        if v is None:
+          # not `name = X.Visit(V())`: nothing is known about its order
+          unknown.append(src(d)[:80])
+          verdicts.append((False, list(after)))
+          continue
+        recv, vis = v
+        lineage.add(recv)
+        if vis == "CanonicalOrderingVisitor":
+          verdicts.append((True, list(after)))
+          if d not in canon_stmts:
+            canon_stmts.append(d)
+          continue
+        back(recv, d, after + [vis], depth + 1, seen | {d})
+
+    back(var, cstmt, [], 0, frozenset())
+    # a module-local helper the inliner had to leave as a call may do (or undo)
+    # any of the steps: refuse rather than judge what cannot be seen
+    for c in calls_in(fn):
+      if dotted(c.func) in smod.functions and any(
+          isinstance(a, ast.Name) and a.id in lineage
+          for a in list(c.args) + [k.value for k in c.keywords]):
+        raise AnalysisError(
+            f"SerializeAst: the tree is passed to the helper {dotted(c.func)}, "
+            f"which could not be inlined ({'; '.join(x for x in smod.notes if 'not inlined' in x)[:160]})")
+    return p
+  return ctx.memo(("c12pipeline",), make)
+
+
 @rule("R12.3", "C12", floor=6)
 def r12_3(ctx):
   """Export pipeline of SerializeAst."""
   sch = get_schema(ctx)
-  # module-local step functions (`ast = _CleanForExport(ast)`) are inlined:
-  # the pipeline is a property of what SerializeAst does, not of where the
-  # statements are written
-  smod = U.virtual(ctx, SERIALIZE, inline=("SerializeAst",))
-  fn = smod.func("SerializeAst")
-  ctors = calls_in(fn, name="SerializableAst")
-  if len(ctors) != 1:
-    raise AnalysisError("SerializeAst: SerializableAst(...) call not found")
-  ctor = ctors[0]
-  a0 = ctor.args[0] if ctor.args else kwarg(ctor, "ast")
-  if not isinstance(a0, ast.Name):
-    raise AnalysisError("SerializeAst: the AST argument is not a local name")
-  var = a0.id
-  cstmt = smod.enclosing_stmt(ctor)
-  rd = reaching(fn)
-  # -- canonical ordering: walk the definition chain backwards from the ctor
-  verdicts = []   # per path: (has_canonical, visitors_after)
-  unknown = []
-  aliases = {var}  # names that denote the very object handed to the ctor
-  lineage = {var}  # names of the trees that object was derived from by .Visit
-
-  def back(name, stmt, after, depth, seen):
-    if depth > 12:
-      raise AnalysisError("SerializeAst: definition chain too deep")
-    defs = defs_at(rd, stmt, name)
-    if not defs:
-      verdicts.append((False, list(after)))
-      return
-    for d in defs:
-      if d in seen:
-        continue
-      plain = isinstance(d, ast.Assign) and len(d.targets) == 1 and \
-          dotted(d.targets[0]) == name
-      if plain and isinstance(d.value, ast.Name):
-        # `name = other`: the same object under another name
-        if not after:
-          aliases.add(d.value.id)
-        lineage.add(d.value.id)
-        back(d.value.id, d, after, depth + 1, seen | {d})
-        continue
-      v = _visitor_of(d.value) if plain else None
-      if v is None:
-        # not `name = X.Visit(V())`: nothing is known about its order
-        unknown.append(src(d)[:80])
-        verdicts.append((False, list(after)))
-        continue
-      recv, vis = v
-      lineage.add(recv)
-      if vis == "CanonicalOrderingVisitor":
-        verdicts.append((True, list(after)))
-        continue
-      back(recv, d, after + [vis], depth + 1, seen | {d})
-
-  back(var, cstmt, [], 0, frozenset())
-  # a module-local helper the inliner had to leave as a call may do (or undo)
-  # any of the steps: refuse rather than judge what cannot be seen
-  for c in calls_in(fn):
-    if dotted(c.func) in smod.functions and any(
-        isinstance(a, ast.Name) and a.id in lineage
-        for a in list(c.args) + [k.value for k in c.keywords]):
-      raise AnalysisError(
-          f"SerializeAst: the tree is passed to the helper {dotted(c.func)}, "
-          f"which could not be inlined ({'; '.join(x for x in smod.notes if 'not inlined' in x)[:160]})")
+  p = _export_pipeline(ctx)
+  smod, fn, var, cstmt = p.smod, p.fn, p.var, p.cstmt
+  verdicts, unknown, aliases, lineage = p.verdicts, p.unknown, p.aliases, p.lineage
   late = sorted({v for ok, after in verdicts if ok for v in after
                  if v not in _ORDER_PRESERVING_AFTER_CANON})
   if late:
